@@ -13,7 +13,7 @@ from fractions import Fraction
 import z3
 
 from .repo import Repo, Module, Unsupported, strip_docstring
-from .values import (V, Num, Bool, Str, NoneV, NONE, Opt, Tup, Lst, Dct, SetV, Obj, Opq, Fn, ExcV, ModV,
+from .values import (V, Num, Bool, Str, NoneV, NONE, Opt, Tup, Lst, Dct, SetV, SetL, Obj, Opq, Fn, ExcV, ModV,
                      truth, is_none, strip_opt, ite, eq, num_pair, fresh_int, fresh_real, fresh_bool,
                      fresh_name, str_lit)
 
@@ -616,6 +616,9 @@ class Exec:
                 return z3.Or([eq(item, x) for x in items]) if items else z3.BoolVal(False)
             i = fresh_int("in")
             return z3.Exists([i], z3.And(i >= 0, i < cont.n, eq(item, cont.at(i))))
+        if isinstance(cont, SetL):
+            from .values import member
+            return member(cont.lst, item)
         if isinstance(cont, Dct):
             return z3.Or([eq(item, k) for k, _ in cont.pairs]) if cont.pairs else z3.BoolVal(False)
         if isinstance(cont, Opq):
@@ -734,7 +737,10 @@ class Exec:
         return self.comprehension(n, p, "list")
 
     def ev_SetComp(self, n, p):
-        raise Unsupported("set comprehension")
+        out = []
+        for q, lst in self.comprehension(n, p, "list"):
+            out.append((q, SetV(lst.items) if lst.concrete else SetL(lst)))
+        return out
 
     def ev_DictComp(self, n, p):
         return self.comprehension(n, p, "dict")
@@ -789,6 +795,16 @@ class Exec:
         if g.ifs:
             from .loops import filtered_list
             return filtered_list(self, n.elt, g, seq, p)
+        from .loops import comp_key
+        cache = self.trace.setdefault("_comp_cache", {})
+        key = comp_key(self, n.elt, g, seq, p)
+        if key in cache:
+            return cache[key][0]
+        res = self._map_comprehension(n, g, seq, p)
+        cache[key] = (res, seq)
+        return res
+
+    def _map_comprehension(self, n, g, seq: Lst, p):
 
         def at(i):
             sub = self.child()
@@ -821,6 +837,8 @@ class Exec:
             return v
         if isinstance(v, (Tup, SetV)):
             return Lst(items=v.items)
+        if isinstance(v, SetL):
+            raise Unsupported("iteration order of a set")
         if isinstance(v, Dct):
             return Lst(items=[k for k, _ in v.pairs])
         if isinstance(v, Obj):
